@@ -1,11 +1,11 @@
 """C13 — peer/connection tables and application readiness stay consistent (Mon_C13.tla)"""
 from . import nodecommon as nc
-from .c13_plan import PROFILE, plans, ASSUME
+from .c13_plan import PROFILE, plans, ASSUME, enum_plans
 
 
 def run(tier, seed):
     mc, sim = plans(tier)
-    ck = nc.run_property("C13", tier, seed, "Inv13", PROFILE, mc, sim, 1500 if tier == "thorough" else 240, ASSUME)
+    ck = nc.run_property("C13", tier, seed, "Inv13", PROFILE, mc, sim, 1500 if tier == "thorough" else 240, ASSUME, enum_plan=enum_plans(tier))
     return ck.finish()
 
 
